@@ -18,6 +18,7 @@ class AddOp(internal.SimpleRawTokenModel):
 @internal.tree_model
 class NumberAddExpr(base.RawTreeModel):
     RULE = 'number_add_expr'
+    INLINE = True
 
     @final
     def __init__(
